@@ -14,6 +14,7 @@ package server
 // dropped) and a new MetaCDC incarnation is brought up over the same store, downstream and source logs.
 
 import (
+	"sync"
 	"runtime"
 	"context"
 	"encoding/json"
@@ -79,6 +80,12 @@ type fsColl struct {
 	// UnknownPart: the source has a partition p1 (id known to the source only) that the downstream never gets:
 	// an insert into it cannot be processed
 	UnknownPart bool
+	// Late: the collection is created upstream while the task runs (catalog event -> create-collection event ->
+	// start positions persisted -> downstream create -> streams from the start positions); it does not exist downstream
+	Late bool
+	// NoDown: the collection exists upstream before the task starts but not downstream (created through the event during
+	// the start-up scan)
+	NoDown bool
 }
 
 type fsTask struct {
@@ -235,6 +242,7 @@ type fsInc struct {
 	mq      *fakemq.MQ
 	cancels []context.CancelFunc
 	release []func()
+	metaOps []*fsMetaOp
 }
 
 func (i *fsInc) fence() {
@@ -265,6 +273,7 @@ type fsRun struct {
 	rejecting   map[string]bool // channels on which the downstream keeps rejecting (RepeatFault)
 	targetDown  map[string]bool // collections whose downstream lookup keeps failing (TargetFault)
 
+	created     map[int64]bool // Late collections that exist upstream by now
 	apiErrs     []string
 	frozenFn    func() bool // no more faults / crashes (final clean phase)
 	setup       bool        // the controller's own goroutine is creating the tasks: nothing parks
@@ -552,7 +561,10 @@ func (t fsTarget) GetDatabaseName(ctx context.Context, coll, db string) (string,
 // source catalog
 type fsMetaOp struct {
 	api.DefaultMetaOp
-	r *fsRun
+	r         *fsRun
+	inc       *fsInc
+	mu        sync.Mutex
+	consumers map[string]api.CollectionEventConsumer
 }
 
 func (m *fsMetaOp) coll(id int64) *fsColl {
@@ -565,13 +577,51 @@ func (m *fsMetaOp) coll(id int64) *fsColl {
 }
 func (m *fsMetaOp) WatchCollection(ctx context.Context, f api.CollectionFilter)                       {}
 func (m *fsMetaOp) WatchPartition(ctx context.Context, f api.PartitionFilter)                         {}
-func (m *fsMetaOp) SubscribeCollectionEvent(taskID string, c api.CollectionEventConsumer)            {}
+func (m *fsMetaOp) SubscribeCollectionEvent(taskID string, c api.CollectionEventConsumer) {
+	m.mu.Lock()
+	defer m.mu.Unlock()
+	if m.consumers == nil {
+		m.consumers = map[string]api.CollectionEventConsumer{}
+	}
+	m.consumers[taskID] = c
+}
 func (m *fsMetaOp) SubscribePartitionEvent(taskID string, c api.PartitionEventConsumer)              {}
-func (m *fsMetaOp) UnsubscribeEvent(taskID string, t api.WatchEventType)                             {}
+func (m *fsMetaOp) UnsubscribeEvent(taskID string, t api.WatchEventType) {
+	if t == api.CollectionEventType {
+		m.mu.Lock()
+		delete(m.consumers, taskID)
+		m.mu.Unlock()
+	}
+}
+
+// announce: the catalog watcher delivers the creation of a collection to the subscribed tasks, one after the other
+// (the real EtcdOp does so from its event goroutine)
+func (m *fsMetaOp) announce(ci *pb.CollectionInfo) {
+	m.mu.Lock()
+	var ids []string
+	for id := range m.consumers {
+		ids = append(ids, id)
+	}
+	sort.Strings(ids)
+	var cs []api.CollectionEventConsumer
+	for _, id := range ids {
+		cs = append(cs, m.consumers[id])
+	}
+	m.mu.Unlock()
+	for _, c := range cs {
+		m.inc.fence()
+		if c(ci) {
+			return
+		}
+	}
+}
 func (m *fsMetaOp) StartWatch()                                                                      {}
 func (m *fsMetaOp) GetAllCollection(ctx context.Context, f api.CollectionFilter) ([]*pb.CollectionInfo, error) {
 	var out []*pb.CollectionInfo
 	for _, c := range m.r.sc.Colls {
+		if c.Late && !m.r.created[c.ID] {
+			continue
+		}
 		ci := c.info()
 		// the source catalog says "dropped" from the moment the drop happened upstream, i.e. at the latest when a
 		// reader has seen the drop message on some shard
@@ -677,7 +727,8 @@ func (r *fsRun) newFullEntity(inc *fsInc, cdc *MetaCDC, uKey string) (*Replicate
 	inc.fence()
 	cfg := cdc.config
 	target := fsTarget{Target: fakedown.Target{D: r.down}, inc: inc, r: r}
-	mo := &fsMetaOp{r: r}
+	mo := &fsMetaOp{r: r, inc: inc}
+	inc.metaOps = append(inc.metaOps, mo)
 	rm, err := coremeta.NewReplicateMetaImpl(inc.st.GetReplicateStore(context.Background()))
 	if err != nil {
 		return nil, err
@@ -719,7 +770,7 @@ func fsReq(t fsTask) *request.CreateRequest {
 // fsStart builds the world and the first incarnation and creates the scenario's tasks.
 func fsStart(sc *fsScenario, ctl *sched.Ctl) *fsRun {
 	r := &fsRun{sc: sc, ctl: ctl, fe: fakeetcd.New(), down: fakedown.New([]string{"tgt-dml_0", "tgt-dml_1"}), srcByKey: map[string]*fsSrc{},
-		packEnd: map[string]fsPackRef{}, logs: map[string][]*msgstream.MsgPack{}, paused: map[string]bool{}, rejecting: map[string]bool{}, targetDown: map[string]bool{}}
+		packEnd: map[string]fsPackRef{}, logs: map[string][]*msgstream.MsgPack{}, paused: map[string]bool{}, rejecting: map[string]bool{}, targetDown: map[string]bool{}, created: map[int64]bool{}}
 	base := fakemq.New(nil)
 	base.LatestIsPublished = true
 	base.TickGap = 600 * time.Millisecond
@@ -731,7 +782,10 @@ func fsStart(sc *fsScenario, ctl *sched.Ctl) *fsRun {
 			sp := funcutil.ToPhysicalChannel(sh.SrcV)
 			tp = append(tp, "tgt-dml_"+sp[strings.LastIndex(sp, "_")+1:])
 		}
-		r.down.AddCollectionOn("default", c.Name, tp)
+		if !c.Late && !c.NoDown {
+			r.down.AddCollectionOn("default", c.Name, tp)
+		}
+		// (a collection created through the event is placed by the downstream itself: shard i on tgt-dml_i)
 		for _, sh := range c.Shards {
 			packs, src, ends := fsBuildLog(c, sh, &seq)
 			base.SetLog(sh.SrcV, packs)
@@ -811,6 +865,11 @@ func (r *fsRun) actions() []sched.Action {
 	if r.restarting || r.resumeBusy || r.cur.dead {
 		return nil
 	}
+	for _, c := range r.sc.Colls {
+		if c.Late && !r.created[c.ID] {
+			out = append(out, sched.Action{Label: "create:" + c.Name, Cost: 1, Do: r.createLate(c)})
+		}
+	}
 	states := r.taskStates()
 	var ids []string
 	for id := range states {
@@ -837,6 +896,20 @@ func (r *fsRun) actions() []sched.Action {
 		}
 	}
 	return out
+}
+
+// createLate: the collection appears in the source catalog and the catalog watcher of the current incarnation
+// announces it to the subscribed tasks
+func (r *fsRun) createLate(c *fsColl) func() {
+	return func() {
+		r.created[c.ID] = true
+		inc := r.cur
+		r.ev(fsEvent{Inc: inc.n, Kind: "create-upstream", Key: c.Name})
+		for _, mo := range inc.metaOps {
+			mo := mo
+			go mo.announce(c.info())
+		}
+	}
 }
 
 func (r *fsRun) teardown() {
